@@ -521,6 +521,7 @@ type Reader struct {
 	filter         filter.Filter
 	verifyChecksum bool
 
+	size                      int64
 	dataEnd                   int64
 	metaBH, indexBH, filterBH blockHandle
 	indexBlock                *block
@@ -560,6 +561,12 @@ func (r *Reader) fixErrCorruptedBH(bh blockHandle, err error) error {
 }
 
 func (r *Reader) readRawBlock(bh blockHandle, verifyChecksum bool) ([]byte, error) {
+	// The handle comes from the file (footer, index block, metaindex block):
+	// a block and its trailer lie in front of the footer. Without this test
+	// the buffer below was allocated from whatever number the file held.
+	if max := uint64(r.size - footerLen); bh.length > max || bh.offset > max || bh.length+blockTrailerLen > max-bh.offset {
+		return nil, r.newErrCorruptedBH(bh, "block handle out of range")
+	}
 	data := r.bpool.Get(int(bh.length + blockTrailerLen))
 	if _, err := r.reader.ReadAt(data, int64(bh.offset)); err != nil && err != io.EOF {
 		return nil, err
@@ -1038,6 +1045,7 @@ func NewReader(f io.ReaderAt, size int64, fd storage.FileDesc, cache *cache.Name
 		o:              o,
 		cmp:            o.GetComparer(),
 		verifyChecksum: o.GetStrict(opt.StrictBlockChecksum),
+		size:           size,
 	}
 
 	if size < footerLen {
